@@ -244,6 +244,8 @@ def check_negotiation(bad, res, accept):
 
 def run_case(acc, A, handler, kind, spec, accept, pkey, carrier, neutral_cache):
     """kind: 'class' (raise/return an HTTPException), 'boom' (uncaught), 'notfound' (path)."""
+    handler, _, method = handler.partition('#')
+    method = method or 'GET'
     app = A.app[handler]
     payload = PAYLOADS.get(pkey, '')
     hdrs = {'Accept': accept} if accept is not None else {}
@@ -256,6 +258,8 @@ def run_case(acc, A, handler, kind, spec, accept, pkey, carrier, neutral_cache):
             kw = {}
             if field == 'code':
                 kw['code'] = 418
+            elif field == 'code499':
+                kw['code'] = 499          # not in any table of registered status codes
             elif field is not None and field.startswith('ct:'):
                 # the documented content_type= option, together with a hostile detail
                 kw['content_type'] = field[3:]
@@ -263,7 +267,7 @@ def run_case(acc, A, handler, kind, spec, accept, pkey, carrier, neutral_cache):
             elif field is not None:
                 kw[field] = pl
             A.spec = (cname, kw, how)
-            return wsgi.call(app, '/err', 'GET', headers=hdrs), kw
+            return wsgi.call(app, '/err', method, headers=hdrs), kw
         if kind == 'boom':
             A.message = pl if carrier == 'excmsg' else 'msg'
             A.local = pl if carrier == 'local' else 'loc'
@@ -280,14 +284,14 @@ def run_case(acc, A, handler, kind, spec, accept, pkey, carrier, neutral_cache):
                 return wsgi.call(app, '/boomp/' + pl.replace('/', '|'), 'GET', headers=h), {}
             if carrier == 'host':
                 h['Host'] = 'h' + ''.join(c for c in pl if c not in ' \x01\x0b') + '.example'
-            return wsgi.call(app, '/boom', 'GET', query=q, headers=h), {}
+            return wsgi.call(app, '/boom', method, query=q, headers=h), {}
         if kind == 'notfound':
-            return wsgi.call(app, '/nf/' + pl.replace('/', '|'), 'GET', headers=hdrs), {}
+            return wsgi.call(app, '/nf/' + pl.replace('/', '|'), method, headers=hdrs), {}
     res, kw = do(payload)
     acc.evaluated += 1
     acc.transitions += 1
     acc.validated += 1
-    case = {'handler': handler, 'kind': kind, 'spec': list(spec) if spec else None, 'accept': accept, 'payload': pkey,
+    case = {'handler': handler if method == 'GET' else handler + '#' + method, 'kind': kind, 'spec': list(spec) if spec else None, 'accept': accept, 'payload': pkey,
             'carrier': carrier}
 
     def bad(k, msg):
@@ -298,7 +302,7 @@ def run_case(acc, A, handler, kind, spec, accept, pkey, carrier, neutral_cache):
         return
     if kind == 'class':
         cls = getattr(A.errors, spec[0])
-        want = 418 if spec[1] == 'code' else cls.code
+        want = 418 if spec[1] == 'code' else (499 if spec[1] == 'code499' else cls.code)
         fields = {'code': want, 'message': kw.get('message', cls.message), 'detail': kw.get('detail', None),
                   'error_type': kw.get('error_type', None)}
         if 'detail' not in kw:
@@ -314,6 +318,11 @@ def run_case(acc, A, handler, kind, spec, accept, pkey, carrier, neutral_cache):
         return
     fmt = check_negotiation(bad, res, accept)
     acc.outcome('%s|%s|%s|%s|%s' % (kind, spec[1] if kind == 'class' else carrier, pkey, handler, fmt))
+    if method == 'HEAD':
+        # same status and negotiated representation as the GET; there is no body to look at
+        if res.body:
+            bad('head-body', 'HEAD response carries a body')
+        return
     if pkey not in ('plain', 'nonascii', None):
         acc.add('nontrivial')
     if fmt is None:
@@ -340,6 +349,8 @@ def items(tier):
         for how in ('raise', 'return'):
             out.append(('default', 'class', (cname, None, how), None))
             out.append(('default', 'class', (cname, 'code', how), None))
+            out.append(('default', 'class', (cname, 'code499', how), None))
+            out.append(('default#HEAD', 'class', (cname, None, how), None))
             for field in ('detail', 'message', 'error_type'):
                 for pkey in sorted(PAYLOADS):
                     out.append(('default', 'class', (cname, field, how), pkey))
@@ -347,6 +358,10 @@ def items(tier):
                 for ct in ('application/json', 'text/html; charset=utf-8', 'application/xml; charset=utf-8', 'text/plain'):
                     for pkey in ('tag', 'quotes', 'plain'):
                         out.append(('default', 'class', (cname, 'ct:' + ct, how), pkey))
+    for handler in ('default#HEAD', 'debug#HEAD'):
+        out.append((handler, 'boom', None, ('excmsg', 'plain')))
+        out.append((handler, 'notfound', None, ('path', 'plain')))
+        out.append((handler.replace('HEAD', 'OPTIONS'), 'notfound', None, ('path', 'plain')))
     for handler in ('default', 'debug'):
         for carrier in ('excmsg', 'local', 'query', 'header', 'cookie'):
             for pkey in sorted(PAYLOADS):
@@ -375,7 +390,7 @@ def accepts_for(item, tier):
     if kind == 'class':
         cname = spec[0]
         return ACCEPTS
-    if handler == 'debug' and tier == 'quick':
+    if handler.startswith('debug') and tier == 'quick':
         return ACCEPTS_SHORT
     return ACCEPTS
 
